@@ -47,5 +47,6 @@ def run(e, R, tier):
         SC.r_scn_feeder,
         SC.r_scn_start,
         TO.r_exit_nested,
+        TO.r_spawn_site,
     ])
     R.trust("stdlib facts: mp.Queue.put starts the feeder thread; Thread.start runs run(); Executor.map calls submit")
